@@ -20,6 +20,7 @@
 (*                                                                         *)
 (* Abstract lines are records [k, n, a, b]: kind, a name, two integers.    *)
 (*   lab n            address label (n names its scope class, see Cls)     *)
+(*   alias n          #define n SYM1: n stands for the symbol S1 (late binding)    *)
 (*   ustr / wstr / rstr  .cstr "\u0141" / .2byte "AB" / the embedded string "é"  *)
 (*   labreg / labkw   a label that is a register name / assembler keyword  *)
 (*   const n a        constant n = a                                       *)
@@ -53,6 +54,8 @@ CONSTANTS
     WinStart, WinEnd, Fill      \* image window; WinEnd = -1 means "no end given"
 
 Undef == -99            \* symbol / label / zone "not defined"
+AliasS1 == -77          \* a symbol defined as the NAME of symbol S1 (#define S3 S1): its value is whatever S1 stands for when it is used
+Val(defs, n) == IF defs[n] = AliasS1 THEN defs["S1"] ELSE defs[n]
 NoEnd == -1             \* cfg files cannot write -1: use  WinEnd <- NoEnd
 SymNames  == {"S1", "S2", "S3", "S4", "S5", "S6", "S7", "S8"}
 ZoneNames == {"GLOBAL", "z1", "z2", "z3", "z4", "z5", "z6", "z7", "z8", "z9", "z10", "z11", "z12"}
@@ -85,8 +88,8 @@ OpenKinds == {"ifdef", "ifndef", "if", "ifnz", "ifx"}
 Holds(l, defs) ==
     CASE l.k = "ifdef"  -> defs[l.n] # Undef
       [] l.k = "ifndef" -> defs[l.n] = Undef
-      [] l.k \in {"if", "elif"} -> defs[l.n] = l.a
-      [] l.k = "ifnz"   -> defs[l.n] # 0
+      [] l.k \in {"if", "elif"} -> Val(defs, l.n) = l.a
+      [] l.k = "ifnz"   -> Val(defs, l.n) # 0
       [] l.k \in {"ifx", "elifx"} -> l.a = 1
       [] OTHER -> FALSE
 
@@ -176,7 +179,7 @@ LineObj(i, l, comp, muted, zone, file, region) ==
 \* operand substitution of a defined preprocessor symbol (whole word; C09 is decided in Symbols.tla)
 Subst(l, defs) ==
     IF l.k \in {"i2", "i3", "byte"} /\ l.n \in SymNames /\ defs[l.n] # Undef
-    THEN [l EXCEPT !.n = "", !.a = defs[l.n]] ELSE l
+    THEN [l EXCEPT !.n = "", !.a = Val(defs, l.n)] ELSE l
 
 AddLine(r, lo) == [r EXCEPT !.lines = Append(@, lo)]
 
@@ -206,9 +209,9 @@ ReadStep0(r, l0) ==
       LET l == Subst(l0, r.defs)
           muted == r.mute > 0
       IN
-      CASE l.k = "define" ->
+      CASE l.k \in {"define", "alias"} ->
               IF r.defs[l.n] # Undef THEN Fail(r, "redefine")
-              ELSE AddLine([r EXCEPT !.defs[l.n] = l.a], LineObj(i, l, TRUE, muted, r.zone, r.file, r.region))
+              ELSE AddLine([r EXCEPT !.defs[l.n] = IF l.k = "alias" THEN AliasS1 ELSE l.a], LineObj(i, l, TRUE, muted, r.zone, r.file, r.region))
         [] l.k = "mkzone" ->
               IF r.ztab[l.n].d THEN Fail(r, "zonedup")
               ELSE IF l.a < r.ztab["GLOBAL"].s \/ l.b > r.ztab["GLOBAL"].e \/ ZoneIllFormed(l.a, l.b)
